@@ -76,7 +76,7 @@ func (p *Loaded) isGhostFn(fn *ssa.Function) bool {
 	if fn.Parent() != nil {
 		return p.isGhostFn(fn.Parent())
 	}
-	return strings.HasPrefix(n, "vc__") || strings.HasPrefix(n, "vcLemma_") || strings.HasPrefix(n, "vcGhost_")
+	return strings.HasPrefix(n, "vc")
 }
 
 func (p *Loaded) isSpecFn(fn *ssa.Function) bool { return p.isGhostFn(fn) }
